@@ -508,9 +508,10 @@ func appendSnapshotFunctions(b []byte, s *slip.Scope) []byte {
 				}
 				return fia[i].Name < fia[j].Name
 			})
+			// The functions are defined in the package they belong to.
 			b = append(b, '\n')
 			b = pp.Append(b, s, slip.List{
-				slip.Symbol("use-package"),
+				slip.Symbol("in-package"),
 				slip.String(p.Name),
 			})
 			for _, fi := range fia {
@@ -519,9 +520,10 @@ func appendSnapshotFunctions(b []byte, s *slip.Scope) []byte {
 			}
 		}
 	}
+	// Back to the package that was current when the snapshot was taken.
 	b = append(b, '\n')
 	b = pp.Append(b, s, slip.List{
-		slip.Symbol("use-package"),
+		slip.Symbol("in-package"),
 		slip.String(slip.CurrentPackage.Name),
 	})
 	return b
